@@ -968,3 +968,80 @@ def check_returned_strings(ctx, rep):
         else:
             rep.ok("R-FFI-N3", key, b.where(), "returns null or CString::into_raw on every path")
     return n
+
+
+# the Rust API function each codec / filter entry of the C API is documented to wrap; "same result as the Rust API on the same
+# values" has, as its structural part, that the wrapper asks exactly that function (not a look-alike: Display is not Zinc,
+# `Value::deserialize` on a bare Deserializer does not reject trailing text the way `from_str` does)
+CODEC_DELEGATION = {
+    "haystack_value_to_zinc_string": "haystack::encoding::zinc::encode::to_zinc_string",
+    "haystack_value_from_zinc_string": "haystack::encoding::zinc::decode::value::from_str",
+    "haystack_value_to_json_string": "serde_json::to_string",
+    "haystack_value_from_json_string": "serde_json::from_str",
+    "haystack_filter_parse": "<haystack::filter::Filter as std::convert::TryFrom>::try_from",
+}
+LOOKALIKES = ("<T as std::string::ToString>::to_string", "serde::Deserialize::deserialize", "<haystack::val::value::Value as serde::Deserialize>::deserialize",
+              "serde_json::Deserializer::from_str", "serde_json::to_value", "serde_json::from_value", "serde_json::to_vec", "serde_json::from_slice",
+              "serde_json::from_reader", "serde_json::to_writer", "<haystack::val::value::Value as std::fmt::Display>::fmt",
+              "haystack::encoding::zinc::encode::ToZinc::to_zinc", "<haystack::val::value::Value as haystack::encoding::zinc::encode::ToZinc>::to_zinc")
+
+
+def check_codec_delegation(ctx, rep):
+    prog = ctx.prog
+    from rules import entries
+
+    n = 0
+    by_name = {prog.bodies[f].rec["name"]: prog.bodies[f] for f in entries.extern_c(prog)}
+    for name, want in sorted(CODEC_DELEGATION.items()):
+        b = by_name.get(name)
+        if b is None:
+            rep.gap("codec-delegation:" + name, "-", "exported function not found")
+            continue
+        n += 1
+        fam = [b] + [prog.bodies[c] for c in prog.closures_of.get(b.id, [])]
+        calls = [strip_generics(mir.callee_name(t) or "") for fb in fam for _bi, t in fb.calls()]
+        other = sorted({c for c in calls if c in LOOKALIKES or (c.startswith(("serde_json::", "haystack::encoding::")) and c != want)})
+        key = "%s:codec-delegation" % name
+        if calls.count(want) == 1 and not other:
+            rep.ok("R-KIND", key, b.where(), "wraps %s and no other codec entry" % want)
+        else:
+            rep.bad("R-KIND", "R-KIND:" + key, b.where(), "%s is documented to wrap %s but calls %s: a different function of the same shape, whose answers differ on some inputs" % (name, want, other or "it %d times" % calls.count(want)))
+    return n
+
+
+def check_length_getters(ctx, rep):
+    """`*_len` of the C API is the `len()` of the wrapped string / collection (the number the Rust API reports, and for strings the
+    byte length of the C string the sibling `*_value` getter returns) or the error sentinel - not a count computed some other way
+    (chars().count() differs from len() on every non-ASCII text)"""
+    prog = ctx.prog
+    from rules import entries
+
+    n = 0
+    for f in entries.extern_c(prog):
+        b = prog.bodies[f]
+        name = b.rec["name"]
+        if not name.endswith(("_len", "_count", "_size", "_length")) or b.rec.get("sig_output") not in ("usize", "u32", "u64", "i32", "i64"):
+            continue
+        n += 1
+        key = "%s:length-is-len" % name
+        odd = []
+        for bi, si, rv in _flow_defs(b, 0):
+            if si == "term":
+                nm = strip_generics(mir.callee_name(b.term(bi)) or "")
+                if nm.split("::")[-1] != "len" or not nm.startswith(("std::", "core::", "alloc::", "haystack::val::")):
+                    odd.append(nm)
+            elif rv["k"] == "use" and mir.op_const(rv["op"]) is not None:
+                continue  # the sentinel
+            elif rv["k"] == "cast":
+                pl = op_place(rv["op"])
+                sd = b.single_def(pl["l"]) if pl is not None and not pl["p"] else None
+                nm = strip_generics(mir.callee_name(b.term(sd[0])) or "") if sd and sd[1] == "term" else "?"
+                if nm.split("::")[-1] != "len":
+                    odd.append("cast of " + nm)
+            else:
+                odd.append(rv["k"])
+        if odd:
+            rep.bad("R-KIND", "R-KIND:" + key, b.where(), "%s returns the result of %s, not the len() of the wrapped value" % (name, odd))
+        else:
+            rep.ok("R-KIND", key, b.where(), "returns len() of the wrapped value or the sentinel")
+    return n
